@@ -1313,3 +1313,23 @@ theorem legacy_discrete_ok_when_n_fits (bits n x : Nat) (hn : n < 2 ^ bits) :
   simp [legacyDiscreteContainsU, Nat.mod_eq_of_lt hn]
 
 end Lerax.C14
+
+/-! ## The defect repaired by /repo cd1fcd0 (integers wider than the default integer type) -/
+namespace Lerax.C14
+/-- pre-repair conversion of a 64-bit integer without x64: truncation to 32-bit two's complement -/
+def wrap32 (v : Int) : Int := (v + 2147483648) % 4294967296 - 2147483648
+/-- pre-repair `Discrete(n).contains` on a 64-bit integer candidate: the test ran on the wrapped value -/
+def legacyDiscreteContainsWide (n : Nat) (v : Int) : Bool := decide (0 ≤ wrap32 v) && decide (wrap32 v < (n : Int))
+
+/-- every value that differs from a member by a multiple of 2^32 was accepted (e.g. 2^32 + 1 by
+    `Discrete(5)`), although it is not one of 0, …, n-1 -/
+theorem legacy_discrete_accepts_wrapped (n : Nat) (k : Nat) (m : Int) (hk : k < n) (hn : n ≤ 2147483648) :
+    legacyDiscreteContainsWide n (m * 4294967296 + k) = true := by
+  have hw : wrap32 (m * 4294967296 + k) = k := by
+    unfold wrap32
+    omega
+  simp [legacyDiscreteContainsWide, hw]
+  omega
+
+theorem legacy_discrete_accepts_2pow32_plus_1 : legacyDiscreteContainsWide 5 (2 ^ 32 + 1) = true := by decide
+end Lerax.C14
